@@ -39,6 +39,11 @@ def interval_arg(case):
     """The `interval` argument handed to the node: seconds as a float, or a pandas-style string."""
     if case.get("interval_str"):
         return case["interval_str"]
+    if case.get("interval_np"):
+        # whole seconds as a Python int or a numpy scalar (an interval read from an array or a frame)
+        import numpy as np
+        f = case["interval_np"]
+        return int(case["interval"] // TICK) if f == "int" else getattr(np, f)(case["interval"] / TICK if f == "float64" else case["interval"] // TICK)
     return case["interval"] / TICK
 
 
@@ -382,6 +387,8 @@ def gen_case(rng, kind):
             "start": rng.choice([0, 0, 7, 1000]), "producers": producers, "costs": costs}
     if long_str:
         case["interval_str"] = long_str
+    elif I and I % TICK == 0 and rng.random() < 0.4:
+        case["interval_np"] = rng.choice(["int", "int64", "int32", "float64"])
     elif I and (I * 1000) % 1024 == 0 and rng.random() < 0.5:
         case["interval_str"] = "%dms" % (I * 1000 // 1024)     # convert_interval() path (pandas Timedelta)
     if rng.random() < 0.35:
@@ -441,6 +448,10 @@ CORPUS = [
     C("rate_limit", 0, [P(False, 0, 0, 3, 0), P(True, 0, 3)], start=7),
     # interval given as a string (convert_interval): '500ms' = 512 ticks
     dict(C("rate_limit", 512, [P(False, 0, 0, 100, 512, 2000)]), interval_str="500ms"),
+    dict(C("rate_limit", 1024, [P(False, 0, 0, 0, 3000)]), interval_np="int64"),
+    dict(C("rate_limit", 2048, [P(False, 0, 0), P(True, 5, 0)]), interval_np="int32"),
+    dict(C("delay", 1024, [P(False, 0, 0, 100)]), interval_np="int64"),
+    dict(C("delay", 2048, [P(True, 0, 1024)]), interval_np="float64"),
     dict(C("delay", 1536, [P(False, 0, 0, 100)]), interval_str="1500ms"),
     # consumer rejects the second element of a backlog; an arrival after the rejection, while a later-booked
     # element is still sleeping (a @0, bad @I, c @2I, d arrives at 1.5 I -> @3I)
